@@ -367,6 +367,7 @@ func newTrig(cfg tcfg) (*trig, error) {
 	r.p = p
 	r.l = h2peer.NewLedger(p, h2peer.AsServer)
 	r.l.ExpectFromHeaders = expectFromHeaders
+	r.l.AutoPingAck()
 	var ss []http2.Setting
 	if cfg.IW0 >= 0 {
 		ss = append(ss, http2.Setting{ID: http2.SettingInitialWindowSize, Val: uint32(cfg.IW0)})
@@ -548,3 +549,6 @@ func (r *trig) shutdown() {
 	case <-time.After(watchdog):
 	}
 }
+
+func (r *srig) nStarts() int64 { return atomic.LoadInt64(&r.starts) }
+func (r *trig) nStarts() int64 { return atomic.LoadInt64(&r.starts) }
